@@ -7,7 +7,9 @@ package app
 import (
 	"fmt"
 
+	"github.com/google/uuid"
 	"github.com/yandex/mysync/internal/mysql/gtids"
+	"github.com/yandex/mysync/internal/verifnd"
 )
 
 type bitGTID struct{ bits uint64 }
@@ -23,7 +25,36 @@ func (b *bitGTID) Contain(o gtids.GTIDSet) bool {
 	return o.(*bitGTID).bits&^b.bits == 0
 }
 func (b *bitGTID) Update(s string) error {
-	panic("bitGTID.Update(text) is not modelled")
+	b.bits |= verifnd.GTIDBits(s)
+	return nil
+}
+
+// verifGTIDOwn: which transactions (bits) originate on which server UUID.
+var verifGTIDOwn = map[uuid.UUID]uint64{}
+
+// verifInstallGTID replaces text parsing and the split-brain test by their set
+// specifications over bit-sets — exactly what C13 decides about the real
+// functions on valid sets: subset ⇒ not split-brained; an extra transaction that
+// did not originate on the master ⇒ split-brained; otherwise (extra transactions
+// of the master's own UUID only) the answer is left arbitrary.
+func verifInstallGTID() {
+	gtids.VerifHook_ParseGtidSet = func(gtidset string) gtids.GTIDSet {
+		return &bitGTID{verifnd.GTIDBits(gtidset)}
+	}
+	gtids.VerifHook_IsSplitBrained = func(slaveGtidSet, masterGtidSet gtids.GTIDSet, masterUUID uuid.UUID) bool {
+		s, m := slaveGtidSet.(*bitGTID).bits, masterGtidSet.(*bitGTID).bits
+		extra := s &^ m
+		if extra == 0 {
+			return false
+		}
+		if extra&^verifGTIDOwn[masterUUID] != 0 {
+			return true
+		}
+		return verifnd.Bool("splitbrained.own-uuid-extra")
+	}
+	gtids.VerifHook_GTIDDiff = func(replicaGTIDSet, sourceGTIDSet gtids.GTIDSet) (string, error) {
+		return "<gtid diff>", nil
+	}
 }
 
 var _ gtids.GTIDSet = (*bitGTID)(nil)
